@@ -560,6 +560,31 @@ pub fn execute(plan: &Plan, ctx: &mut Ctx) {
             }
             _ => {}
         }
+        // a write needs only the written terminal: the same write once more while the caller holds the
+        // partner's MUTABLE guard (it is about to write that end too) must go through just the same
+        if matches!(code, "SS" | "SC") {
+            if let Some(p) = model[a0].partner.filter(|&p| p != a0) {
+                let again = {
+                    let _partner_guard = terms[p].borrow_mut();
+                    guarded(|| {
+                        if code == "SS" {
+                            norm_unit(&set_state(terms[a0], op.arg(1), [op.arg(2) as u32, op.arg(3) as u32, op.arg(4) as u32]))
+                        } else {
+                            norm_unit(&set_cmd(terms[a0], op.arg(1), op.arg(2) as u8, op.arg(3) as u32))
+                        }
+                    })
+                };
+                ctx.count("reach.write_while_partner_mutably_borrowed");
+                match again {
+                    Ok(None) => {}
+                    Ok(Some(e)) => viol2(ctx, &["C09"], "set_rejected", "terminal", format!("op {}: set on terminal {} while its partner is mutably borrowed returned {:?}", i, a0, e)),
+                    Err(pn) => {
+                        viol2(ctx, &["C09"], "panic", "write_while_partner_mutably_borrowed", format!("op {} ({}): writing terminal {} while the caller holds its partner's mutable guard panicked: {:?} at {}", i, code, a0, pn.msg, pn.short_loc()));
+                        return;
+                    }
+                }
+            }
+        }
         if matches!(code, "SS" | "SC" | "ENC" | "ENCP" | "FB" | "TFC") {
             let t = if code == "FB" { op.arg(2) } else { op.arg(1) };
             tmin = Some(tmin.map_or(t, |m: i64| m.min(t)));
@@ -593,11 +618,24 @@ pub fn execute(plan: &Plan, ctx: &mut Ctx) {
             let mut unmodelled = false;
             for &k in ts.iter() {
                 if let Some(f) = folc[k] {
-                    if model[k].partner.is_some() || !matches!(spec, DevSpec::Invert | DevSpec::Gear(_) | DevSpec::GearTeeth(_) | DevSpec::Axle(_) | DevSpec::Diff(_)) {
+                    let partner = model[k].partner;
+                    if !matches!(spec, DevSpec::Invert | DevSpec::Gear(_) | DevSpec::GearTeeth(_) | DevSpec::Axle(_) | DevSpec::Diff(_)) || partner.map_or(false, |p| ts.contains(&p)) {
                         unmodelled = true;
                     } else {
+                        // the followed command lands in the own slot; what the device then READS at this
+                        // terminal is the newer of that and the partner's own slot (a tie between different
+                        // commands is outside the quantifier)
                         pre[k].own_c = Some(f);
-                        pre[k].rd_c = Out::Some(f.0, Val::C(f.1, f.2));
+                        let mut rd = f;
+                        if let Some(c) = partner.and_then(|p| pre[p].own_c) {
+                            if c.0 > f.0 {
+                                rd = c;
+                                ctx.count("reach.follower_terminal_reads_newer_partner_command");
+                            } else if c.0 == f.0 && (c.1, c.2) != (f.1, f.2) {
+                                unmodelled = true;
+                            }
+                        }
+                        pre[k].rd_c = Out::Some(rd.0, Val::C(rd.1, rd.2));
                         ctx.count("reach.device_pulls_followed_command");
                     }
                 }
